@@ -268,16 +268,60 @@ func cellOf(v ssa.Value) *ssa.Alloc {
 // cellIdent names a local variable cell; a cell that only ever holds a
 // parameter of its function is named after the parameter.
 func cellIdent(cell *ssa.Alloc) string {
-	var only ssa.Value
-	n := 0
-	for _, r := range refs(cell) {
-		if st, ok := r.(*ssa.Store); ok && st.Addr == cell {
-			n++
-			only = st.Val
-		}
-	}
+	only, n := cellStores(cell)
 	if pa, ok := only.(*ssa.Parameter); ok && n == 1 {
 		return "param:" + pa.Parent().Name() + "." + pa.Name()
 	}
+	// a local that is assigned once, from a struct field (ch := b.closeCh), is
+	// that field's channel (fields are identified by type and name throughout)
+	if n == 1 {
+		if id, _, ok := fieldOfValue(only); ok {
+			if _, isAddr := only.(*ssa.FieldAddr); !isAddr {
+				return "field:" + id.Type + "." + id.Field
+			}
+		}
+		if f, ok := only.(*ssa.Field); ok {
+			id := fieldIDOfField(f)
+			return "field:" + id.Type + "." + id.Field
+		}
+	}
 	return "var:" + cell.Parent().Name() + "." + cell.Comment
+}
+
+// cellStores counts the stores into a local variable cell, including those
+// made by closures that capture it (transitively); returns the stored value
+// when there is exactly one.
+func cellStores(cell *ssa.Alloc) (only ssa.Value, n int) {
+	var visit func(addr ssa.Value, depth int)
+	visit = func(addr ssa.Value, depth int) {
+		if depth > 6 {
+			n += 2
+			return
+		}
+		for _, r := range refs(addr) {
+			switch x := r.(type) {
+			case *ssa.Store:
+				if x.Addr == addr {
+					n++
+					only = x.Val
+				}
+			case *ssa.MakeClosure:
+				fn, _ := x.Fn.(*ssa.Function)
+				if fn == nil {
+					n += 2
+					continue
+				}
+				for i, b := range x.Bindings {
+					if b == addr && i < len(fn.FreeVars) {
+						visit(fn.FreeVars[i], depth+1)
+					}
+				}
+			}
+		}
+	}
+	visit(cell, 0)
+	if n != 1 {
+		only = nil
+	}
+	return only, n
 }
